@@ -95,3 +95,19 @@ func TestManyNodesWithReorg(t *testing.T) {
 		n.Close()
 	}
 }
+
+func TestNoGoroutineLeak(t *testing.T) {
+	base := runtimeNumGoroutine()
+	for k := 0; k < 20; k++ {
+		n, err := New(Opts{})
+		if err != nil {
+			t.Fatal(err)
+		}
+		n.Close()
+	}
+	after := runtimeNumGoroutine()
+	t.Logf("goroutines before %d after %d", base, after)
+	if after > base+20 {
+		t.Fatalf("goroutine leak: %d -> %d", base, after)
+	}
+}
